@@ -88,6 +88,15 @@ def load_table():
         return None
 
 
+def load_globals():
+    """module -> names bound at module level in the reference tree."""
+    try:
+        with open(TABLE) as fh:
+            return json.load(fh).get('globals')
+    except (OSError, ValueError):
+        return None
+
+
 def group_fp(funcs):
     c = collections.Counter()
     for f in funcs:
